@@ -1197,17 +1197,27 @@ func (f *c06Families) apply(st c06Step) {
 			f.extended[id] = true
 		}
 		if st.Target != "-" && !info.atomRes {
-			f.fam[st.Target] = id
+			f.join(st.Target, id)
 		}
 	default: // fresh results
 		f.next++
 		if st.Target != "-" {
-			f.fam[st.Target] = f.next
+			f.join(st.Target, f.next)
 		}
 		if st.Op == "push" && len(args) > 0 {
-			f.fam[args[0]] = f.next
+			f.join(args[0], f.next)
 		}
 	}
+}
+
+// join assigns a variable to a family. The generator does not know whether the step will succeed
+// (a condition leaves the variable with its old value), so a variable that already has a family is
+// never moved out of it: the two families are merged (over-approximation).
+func (f *c06Families) join(name string, id int) {
+	if old, ok := f.fam[name]; ok && old != id && name != c06Tmp {
+		id = f.merge(old, id)
+	}
+	f.fam[name] = id
 }
 
 // random pool with aliasing patterns, then up to 6 random operations
